@@ -173,6 +173,12 @@ def run(ctx):
             sizes=[8, 9, 20, 100, 700, mtu - 66, mtu - 65, 2500, 4000], retry_modes=(0, 0, 1, -1), send_rate=0.5, heal=True,
             ot=rng.choice([1024, 1024, 512]), ka=rng.choice([96, 32]),
             start={"ss": 65535 - rng.randint(0, 40), "sm": 65500, "sf": 65530} if i % 4 == 0 else None))
+    # a retried message overtaken by more newer messages than the receiver's 256-wide window: when its callback says True the peer
+    # must have accepted it (the generator is C05's)
+    from harness.props import c05 as _c05
+    for j, n_other in enumerate(ctx.scale([250, 257, 300], [40, 200, 255, 256, 257, 258, 300, 400, 520])):
+        for fault in ("lost", "reorder"):
+            cases.append(_c05.gen_overtaken_case(real, rng, "o%d%s" % (j, fault[0]), rng.choice([1500, 512]), n_other, fault))
     real2 = connlib.Real()
 
     def nontrivial(case, outs):
